@@ -609,6 +609,8 @@ package parse
 // The conditional binds loosest: in an operand position (min > 0) its '?' is left to the caller, so its condition is
 // the whole preceding expression.
 //@ func parse.(*Tree).parseOuterExprPrec
+// C20: a filter name or attribute that cannot be used is reported at its own first token (not at the | or . before it)
+//@   asserts@default operandpos: err != nil && istype(r1, "*UnexpectedTokenError") && called("t.parseInnerExpr()") ==> unbox(r1, "*UnexpectedTokenError").baseError.parseError.Pos == first.Pos
 // C14: inside delimiters a raw next() / peek() (one that does not skip blanks) never meets a blank - except where a
 // number literal looks for its fraction point (tokens that can merge)
 //@   at? "t.next()" nows: !isWS(tokAt(t, tcur(t)))
